@@ -95,7 +95,9 @@ def anyKeep (c : Cfg) (rr : Rec) (k : Key) : Bool :=
 (`none` = `return Err(FormErr)`; the zone keeps what earlier iterations did). -/
 def applyRR (c : Cfg) (z : Zone) (rr : Rec) : Zone × Option Bool :=
   if rr.cls = c.zclass then
-    ((upsert c.zclass z rr).1, some (upsert c.zclass z rr).2)
+    -- 4a1b96f: an SOA add away from the origin is ignored (`continue`)
+    if rr.rtype = T_SOA ∧ rr.name.toLowercase ≠ c.origin then (z, some false)
+    else ((upsert c.zclass z rr).1, some (upsert c.zclass z rr).2)
   else if rr.cls = C_ANY then
     if (rr.rtype = T_SOA ∨ rr.rtype = T_NS) ∧ rr.name.toLowercase = c.origin then (z, some false)
     else if rr.rtype = T_ANY then
@@ -107,7 +109,10 @@ def applyRR (c : Cfg) (z : Zone) (rr : Rec) : Zone × Option Bool :=
   else if rr.cls = C_NONE then
     match z.get rr.key with
     | some rs =>
-      if (rsRemove rs rr).2 then (z.set rr.key (rsRemove rs rr).1, some true) else (z, some false)
+      if (rsRemove rs rr).2 then
+        -- d90c741: an emptied RRset is removed from the map
+        (if (rsRemove rs rr).1 = [] then z.erase rr.key else z.set rr.key (rsRemove rs rr).1, some true)
+      else (z, some false)
     | none => (z, some false)
   else (z, none)
 
